@@ -74,6 +74,22 @@ def setConstraint (cur : Option ProjSel) (si : SettingInfo) (opt : AlgoOpt) : Pr
     else if opt.onAlgoEq == false && opt.onAlgoIneq == true then .ineqOnly si.onPara
     else .toSelf
 
+/-- name of the factory method of the source whose result the selection installs -/
+def ProjSel.factoryName : ProjSel → String
+  | .physical _ _ _ => "func_calc_proj_physical_with_var"
+  | .eqOnly _ => "func_calc_proj_eq_constraint_with_var"
+  | .ineqOnly _ => "func_calc_proj_ineq_constraint_with_var"
+  | .toSelf => "proj_to_self"
+
+/-- the source expressions that the three arguments of `funcCalcProjPhysicalWithVar` in `setConstraint` stand for
+(`si.onPara`, `opt.order`, `opt.maxIterProj`) -/
+def physicalArgSources : List String :=
+  ["setting_info.on_para_eq_constraint", "option.mode_proj_order", "option.max_iteration_proj_physical"]
+
+/-- the keywords the closure of `funcCalcProjPhysicalWithVar` forwards to `calc_proj_physical_with_var`: the parametrisation flag
+and the iteration limit — not the projection order -/
+def closureForwards : List String := ["on_para_eq_constraint", "max_iteration"]
+
 def ProjSel.toString : ProjSel → String
   | .physical p o m => s!"physical {p} {o.toString} {match m with | some k => ToString.toString k | none => "none"}"
   | .eqOnly p => s!"eq {p}"
